@@ -22,12 +22,23 @@ abstract DOM (snapshot of the real parse of the real HTML), the parsed document.
 round-trip theorem (faithful rules + whitespace-normal text) implies that the real round trip is the identity; cases are counted per
 node kind (`roundtrip_kind:*`).  Theorem: roundtrip (rtOk R D doc -> roundTrip R D doc = ok doc; Props/C19.lean), with the
 roundtrip_*_partial theorems as its lemmas; every `rtOk` case of the tie is an instance of it.
+Bundled schemas as data (harness/rt_tables.py, lean/Gen/RoundTrip.lean, lean/Family/C19RoundTrip.lean): the parse rules in restricted
+form and the `toDOM` functions of the basic and list schemas are read off the running library as tables (`toDOM` by probing with marker
+attribute values, plus the attribute patterns where the function branches); the translator writes them as Lean literals (`rBasic`,
+`dtBasic`, …) and the family phase has the kernel decide the schema part `rtSchemaOk` of the theorem's hypothesis for them
+(`basic_rtSchemaOk`, `list_rtSchemaOk`), which closes the theorem to `roundtrip_basic / roundtrip_list : rtDocOk … doc → roundTrip … doc
+= ok doc`.  The round-trip requests of this check carry *these tables* (not per-document outputs): `roundtrip_schema_tie` checks that the
+generated file is the rendering of the request tables and that the driver's `rtSchemaOk` is what the generated theorem states; per
+document the tables are compared with the real `toDOM` outputs of every node and mark (`todom_template:*`) and with the rules of the
+recorded real parse, the driver evaluates the document part `rtDocOk` (= `rtOk` under the schema part), and `rtDocOk` with the real
+HTML equal to the tables' HTML but a real round trip that is not the identity is a VIOLATION (`roundtrip-theorem`).
 Search (named as such): termination (per-call alarm) and no-crash of lxml / cssselect / `re` on generated HTML; validity of the parsed
 document (check() + independent validator); context-restricted rules apply exactly where the open
 ancestors match; serialise → parse round trip on whitespace-normal documents of the bundled schemas.
 """
 import html as html_mod
 import json
+import os
 import re
 
 import lxml.html
@@ -38,7 +49,7 @@ from prosemirror.model.from_dom import NodeContext, ParseContext, ParseOptions, 
 from prosemirror.schema.basic import schema as basic_schema
 from prosemirror.test_builder import test_schema as list_schema
 
-from .. import codec, core, gen, schemas
+from .. import codec, core, gen, rt_tables, schemas
 from ..core import outcome
 from ..validator import validator
 
@@ -705,33 +716,19 @@ def walk_compare(ctx, replay, info, pc, st_real, out, kind):
 # parsed document with the real one.  Relation: `rtOk` (the hypothesis of the round-trip theorem) implies that the real
 # round trip gives the document back.
 
-SEL_RE = re.compile(r"^([a-z][a-z0-9]*)((?:\[[a-z][a-z0-9-]*\])*)$")
-
-
-class _ProbeDom:
-    def get(self, a, default=None):
-        return "\x00probe:" + a
-
-
-def rule_sel(rule):
-    """[tag, [needed attributes], None | [[key, dom attribute]]] of a tag rule, or None if it is not of that form"""
-    m = SEL_RE.match(rule.tag or "")
-    if not m or rule.namespace is not None or rule.get_content is not None or rule.content_element is not None:
-        return None
-    need = re.findall(r"\[([a-z0-9-]+)\]", m.group(2))
-    copy = None
-    if rule.get_attrs is not None:
-        try:
-            r = rule.get_attrs(_ProbeDom())
-        except Exception:  # noqa: BLE001
-            return None
-        if not isinstance(r, dict) or not all(isinstance(v, str) and v.startswith("\x00probe:") for v in r.values()):
-            return None
-        copy = [[k, v[len("\x00probe:"):]] for k, v in r.items()]
-    return [m.group(1), need, copy]
+# the rules in restricted form and the `toDOM` functions as tables: harness/rt_tables.py (shared with the translator that
+# writes lean/Gen/RoundTrip.lean: the request below carries exactly the data of the generated Lean literals)
+rule_sel = rt_tables.rule_sel
 
 
 def roundtrip_request(info, sid, ser, parser, snap, d):
+    """the model request of one export→import case.  The rules and the `toDOM` functions go as the tables of
+    `rt_tables.tables(info)` — the data lean/Gen/RoundTrip.lean holds as `r<Name>` / `dt<Name>`; a schema whose `toDOM`
+    functions are not of the restricted form falls back to the outputs evaluated on this document's nodes."""
+    T = rt_tables.tables(info, parser)
+    if isinstance(T, dict):
+        return {"op": "roundTrip", "s": sid, "groups": T["groups"], "wsPre": T["wsPre"], "tags": T["tags"],
+                "styles": T["styles"], "sel": T["sel"], "toDom": T["toDom"], "doc": info.node(d)}
     sel = [rule_sel(r) for r in parser._tags]
     if any(x is None for x in sel):
         return None
@@ -758,6 +755,131 @@ def roundtrip_request(info, sid, ser, parser, snap, d):
             "doc": info.node(d)}
 
 
+def _parse_open(parser, html):
+    """`parse_slice` of an HTML text.  `DOMParser.parse_slice` expects the lxml tree with its `.text` / `.tail` strings
+    already turned into the `lxmltext` pseudo elements, which only `DOMParser.parse` does (on a plain lxml tree `parse_slice`
+    silently drops all text): the tree is run through `parse` first, as the library's own callers must."""
+    dom = html_fragment(html)
+    outcome(lambda: parser.parse(dom), 5.0)
+    return parser.parse_slice(dom)
+
+
+def real_form_ok(info, ser, parser, t_name, attrs_enc):
+    """the row (type, attributes) of the schema part against the running library: a filled node of that type is serialised
+    by the real serializer and its HTML parsed (as an open slice: no placement under `doc`) by the real parser — True when
+    a node of the type with
+    the same attributes comes back, False when not (or the serializer has no `toDOM` for it), None when no node can be built"""
+    typ = info.schema.nodes[t_name]
+    try:
+        node = typ.create_and_fill({k: json.loads(v) for k, v in attrs_enc})
+    except Exception:  # noqa: BLE001
+        return None
+    if node is None:
+        return None
+    st, sl = outcome(lambda: _parse_open(parser, str(ser.serialize_node(node))), 5.0)
+    if st != "ok":
+        return False
+    found = []
+    sl.content.descendants(lambda n, pos, parent, i: found.append(n) or True)
+    for n in found:
+        if n.type is typ:
+            return info.attrs(typ, n.attrs) == info.attrs(typ, node.attrs)
+    return False
+
+
+def real_mark_ok(info, ser, parser, m_name, attrs_enc):
+    """a mark pattern of the schema part against the running library: a text `x` carrying the mark, inside the first
+    textblock type that allows it, is serialised and parsed back (open slice) — does the text come back with exactly that mark?"""
+    schema = info.schema
+    mt = schema.marks[m_name]
+    try:
+        mark = mt.create({k: json.loads(v) for k, v in attrs_enc})
+        host = next(t for t in schema.nodes.values() if t.is_textblock and t.allows_mark_type(mt) and t.name in ser.nodes)
+        node = host.create(None, schema.text("x", [mark]))
+    except Exception:  # noqa: BLE001
+        return None
+    st, sl = outcome(lambda: _parse_open(parser, str(ser.serialize_node(node))), 5.0)
+    if st != "ok":
+        return False
+    found = []
+    sl.content.descendants(lambda n, pos, parent, i: found.append(n) or True)
+    return any(n.is_text and n.text == "x" and info.marks(n.marks) == [info.mark(mark)] for n in found)
+
+
+def roundtrip_schema_tie(ctx, names):
+    """Per bundled schema, once per run: (1) the Lean literals of lean/Gen/RoundTrip.lean are the rendering of the tables
+    the round-trip requests of this run carry (`rt_tables.tables` of the harness's own schema object; the translator built
+    its own from a fresh `Schema(spec)`); (2) the schema part `rtSchemaOk`, evaluated by the driver on those tables, is what
+    the generated theorem states (`<name>_rtSchemaOk`, decided by the kernel in the family phase).  Returns the evidence."""
+    from .. import translate_schemas as ts
+    ev = {}
+    path = os.path.join(core.LEAN, "Gen", "RoundTrip.lean")
+    text = open(path).read() if os.path.exists(path) else ""
+    for name in names:
+        info = schemas.by_name(name)
+        T = rt_tables.tables(info)
+        e = ev.setdefault(name, {})
+        if not isinstance(T, dict):
+            e["tables"] = "none: " + T
+            ctx.count("rt_schema:not-restricted:" + name)
+            continue
+        e["tables_digest"] = rt_tables.digest(T)
+        lit = "\n".join(ts.lean_rt(name, ts.lean_ident(name), T))
+        same = lit in text
+        e["generated_literals_are_the_request_tables"] = same
+        ctx.case(["rt-schema-literals", name], sample={"op": "generated literals = request tables", "schema": name})
+        if same:
+            ctx.count("rt_schema:literals-agree")
+        else:
+            ctx.mismatch("roundtrip-generated-literals", {"schema": name, "file": "lean/Gen/RoundTrip.lean"},
+                         "the Lean rendering of rt_tables.tables(%s)" % name, "a different text (or no r%s) in the generated file" % ts.lean_ident(name))
+        out = ctx.driver.run([dict({k: T[k] for k in ("groups", "wsPre", "tags", "styles", "sel", "toDom")},
+                                   op="rtSchema", s=ctx.driver.add_schema(info))])[0]
+        ctx.count("model_requests")
+        e["rtSchemaOk_driver"] = out.get("rtSchemaOk")
+        forms = []
+        ser_real, parser_real = DOMSerializer.from_schema(info.schema), DOMParser.from_schema(info.schema)
+        for t, a, f in out.get("forms", []):
+            # the row against the running library (relational: a row the schema part accepts is read back by the real code)
+            real = real_form_ok(info, ser_real, parser_real, info.node_names[t], a)
+            ctx.case(["rt-schema-row", name, t, a], sample={"op": "schema-part row vs real serialise+parse", "schema": name, "type": info.node_names[t]})
+            if real is None:
+                ctx.count("rt_schema_row:no-node")
+            elif f is not None and not real:
+                ctx.mismatch("roundtrip-schema-row", {"schema": name, "type": info.node_names[t], "attrs": a},
+                             "read back by the real parser (the schema part accepts this row: %s)" % f, "not read back")
+            else:
+                ctx.count("rt_schema_row:accepted-and-read-back" if f is not None else
+                          "rt_schema_row:rejected-and-not-read-back" if not real else "rt_schema_row:rejected-but-read-back")
+            row = info.node_names[t] + "".join(" %s=%s" % (k, v) for k, v in a) + (
+                " is NOT read back" if f is None else " <-> <%s>%s" % (f[0], "" if f[1] is None else " (preserve_whitespace %s)" % json.dumps(f[1])))
+            if row not in forms:
+                forms.append(row)
+        e["forms"] = forms
+        for m, ok in out.get("markPatterns", []):
+            real = real_mark_ok(info, ser_real, parser_real, info.mark_names[m[0]], m[1])
+            ctx.case(["rt-schema-mark", name, m], sample={"op": "schema-part mark pattern vs real serialise+parse", "schema": name, "mark": info.mark_names[m[0]]})
+            if real is None:
+                ctx.count("rt_schema_mark:no-host")
+            elif ok and not real:
+                ctx.mismatch("roundtrip-schema-mark", {"schema": name, "mark": info.mark_names[m[0]], "attrs": m[1]},
+                             "read back by the real parser (the schema part accepts this mark)", "not read back")
+            else:
+                ctx.count("rt_schema_mark:accepted-and-read-back" if ok else
+                          "rt_schema_mark:rejected-and-not-read-back" if not real else "rt_schema_mark:rejected-but-read-back")
+        e["mark_patterns"] = [info.mark_names[m[0]] + ("" if ok else " is NOT read back") for m, ok in out.get("markPatterns", [])]
+        want = ts.RT_SCHEMAS.get(name)
+        ctx.case(["rt-schema-part", name], sample={"op": "rtSchemaOk", "schema": name})
+        if out.get("rtSchemaOk") == want:
+            ctx.count("rt_schema:schema-part-as-stated")
+        else:
+            # the compiled model disagrees with the statement of the generated theorem: that theorem fails in the family
+            # phase (a broken obligation); here it is a mismatch naming the forms that are not read back
+            ctx.mismatch("roundtrip-schema-part", {"schema": name, "forms": e["forms"], "mark_patterns": e["mark_patterns"]},
+                         want, out.get("rtSchemaOk", out))
+    return ev
+
+
 def node_kinds(d):
     out = {}
 
@@ -770,8 +892,29 @@ def node_kinds(d):
     return out
 
 
-def roundtrip_compare(ctx, replay, info, d, html, snap, st_real, doc_real, eligible, out):
+def roundtrip_compare(ctx, replay, info, d, html, snap, st_real, doc_real, eligible, out, tabled=False):
     ctx.count("roundtrip_tie:cases")
+    identity = st_real == "ok" and info.node(doc_real) == info.node(d)
+    if tabled:
+        # the request carried the schema's tables (the data of lean/Gen/RoundTrip.lean), the driver evaluated both parts
+        ctx.count("roundtrip_tie:tabled")
+        if out.get("rtSchemaOk") and out.get("rtDocOk") != out.get("rtOk"):
+            ctx.mismatch("roundtrip-parts", replay, "rtDocOk = rtOk under rtSchemaOk (roundtrip_parts_iff)",
+                         {"rtDocOk": out.get("rtDocOk"), "rtOk": out.get("rtOk")})
+        if out.get("rtSchemaOk") and out.get("rtDocOk"):
+            ctx.count("roundtrip_tie:rtDocOk")
+            # roundtrip_basic / roundtrip_list: the document part holds (the schema part is kernel-checked), so the model's
+            # round trip is the identity; when the real serializer printed what the tables say, the real one must be too
+            if out.get("html") == html and not identity:
+                ctx.violation("roundtrip-theorem", "the document satisfies the document part rtDocOk of the round-trip theorem for "
+                              "the bundled schema, its HTML is what the schema's toDOM tables give, and parsing it back "
+                              + ("raised " + str(st_real) if st_real != "ok" else "does not give the document"),
+                              dict(replay, html=html[:600]))
+                return
+            if not eligible:
+                ctx.count("roundtrip_tie:rtDocOk-but-not-harness-normal")
+        elif eligible:
+            ctx.count("roundtrip_tie:harness-normal-but-not-rtDocOk")
     if out.get("html") != html:
         ctx.mismatch("roundtrip-html", replay, html[:400], str(out.get("html", out))[:400])
         return
@@ -796,7 +939,6 @@ def roundtrip_compare(ctx, replay, info, d, html, snap, st_real, doc_real, eligi
         return
     if mark_free and out.get("rtOk"):
         ctx.count("roundtrip_tie:markfree-theorem-instances")      # roundtrip_markfree_partial applies: model = real = identity
-    identity = want == info.node(d)
     ctx.count("roundtrip_tie:identity" if identity else "roundtrip_tie:not-identity")
     if out.get("rtOk"):
         ctx.count("roundtrip_tie:rtOk")
@@ -1181,6 +1323,11 @@ def run(ctx):
                 ctx.mismatch("placement-slice-open", replay, replay["open"], out["open"])
     # ---- export, escaping, round trip
     rreqs, rmetas, rt_seen = [], [], 0
+    from .. import translate_schemas as ts_mod
+    rt_ev = roundtrip_schema_tie(ctx, list(ts_mod.RT_SCHEMAS))
+    if ctx.family is not None:
+        for n, e in rt_ev.items():
+            ctx.family.setdefault("roundtrip_schema_part", {}).setdefault(n, {}).update(e)
     for name, schema in parse_schemas[:2]:
         info = schemas.by_name(name)
         ser = DOMSerializer.from_schema(schema)
@@ -1225,18 +1372,29 @@ def run(ctx):
             snap = pcs[0]._snapshot if len(pcs) == 1 else None
             if snap and not snap.get("_unsupported"):
                 rq = roundtrip_request(info, ctx.driver.add_schema(info), ser, parsers[name], snap, d)
+                T = rt_tables.tables(info, parsers[name])
+                if rq is not None and "toDom" in rq:
+                    # the tables against the running library, on this case: the rules the recorded real parse used, and
+                    # the real `toDOM` outputs of every node and mark of the document
+                    if any(T[k] != snap[k] for k in ("tags", "styles", "groups", "wsPre")):
+                        ctx.mismatch("roundtrip-tables-rules", replay, {k: snap[k] for k in ("tags", "styles")}, {k: T[k] for k in ("tags", "styles")})
+                        continue
+                    bad = rt_tables.check_doc(info, ser, T["toDom"], d, ctx.count)
+                    if bad:
+                        ctx.mismatch("todom-template", replay, bad[0][2], {"type": bad[0][0], "attrs": bad[0][1], "table gives": bad[0][3]})
+                        continue
                 if rq is not None:
                     rreqs.append(rq)
-                    rmetas.append((replay, info, d, html, snap, st_r, doc_r, whitespace_normal(d) and carried_attrs(d)))
+                    rmetas.append((replay, info, d, html, snap, st_r, doc_r, whitespace_normal(d) and carried_attrs(d), "toDom" in rq))
                 else:
                     ctx.count("roundtrip_tie:rules-not-in-restricted-form")
             else:
                 ctx.count("roundtrip_tie:not-recorded")
     if rreqs:
         outs = ctx.driver.run(rreqs)
-        for (replay, info, d, html, snap, st_r, doc_r, eligible), out in zip(rmetas, outs):
+        for (replay, info, d, html, snap, st_r, doc_r, eligible, tabled), out in zip(rmetas, outs):
             ctx.count("model_requests")
-            roundtrip_compare(ctx, replay, info, d, html, snap, st_r, doc_r, eligible, out)
+            roundtrip_compare(ctx, replay, info, d, html, snap, st_r, doc_r, eligible, out, tabled)
     if reqs and any(r["op"] == "serialize" for r in reqs):
         outs = ctx.driver.run(reqs)
         for req, (replay, html), out in zip(reqs, metas, outs):
